@@ -1,17 +1,59 @@
 #!/usr/bin/env python3
 # Regenerates MANIFEST.json from the table below (kept as code so the file is always valid JSON).
 import json, sys
+DED = "contract-based deductive verification: VC generation over go/ssa (loop invariants/variants, call-by-contract, heap components, spec functions, inductive lemmas), discharged by z3/cvc5"
+TB = "Trusted: go/ssa, the govc SSA->SMT translation, z3/cvc5 'unsat', the stdlib contracts listed in the evidence. "
 claimed = {
  "C01": dict(
-   text="Unbounded deductive proof: order, cisdigit, cisalpha, verrevcmp (5 loop contracts) and Compare are verified, from the SSA of the current sources, against a Policy-5.6.12 spec function (runs determined first, digit runs compared as unbounded mathematical integers). Every bounds/overflow/termination obligation of these functions is discharged as well, so machine arithmetic equals mathematical arithmetic in them.",
-   note="Assumes NUL-free strings (dpkg's C strings; weaker than the parser alphabet). Trusted: go/ssa, the govc SSA->SMT translation, z3/cvc5 'unsat'. The spec function itself is sampled against the real dpkg in the thorough tier.",
-   technique="contract-based deductive verification: weakest-precondition style VC generation over go/ssa with loop invariants and inductive lemmas, discharged by z3/cvc5",
-   design="3 (C01), Appendix A"),
+   text="Unbounded deductive proof: order, cisdigit, cisalpha, verrevcmp (5 loop contracts) and Compare are verified, from the SSA of the current sources, against a Policy-5.6.12 spec function (runs determined first, digit runs compared as unbounded mathematical integers); every bounds/overflow/termination obligation of these functions is discharged too. A bounded differential harness (independent oracle, cross-checked against the real dpkg) runs beside it as witness search and is reported under coverage.bounded.",
+   note=TB+"Assumes NUL-free strings (dpkg's C strings; weaker than the parser alphabet).",
+   technique=DED, design="3 (C01), Appendix A"),
+ "C02": dict(
+   text="Unbounded deductive proof: reflexivity, sign flip, transitivity (with strictness) and congruence are proved as inductive lemmas about the spec order and transferred to Compare through C01's postcondition; Slice.Len/Swap/Less are verified against their sort-adapter contracts (Swap with a checked frame). sort.Sort itself is trusted. Bounded law/sort harness beside it.",
+   note=TB+"sort.Sort's contract (terminates with a non-decreasing permutation given a strict weak order) is assumed.",
+   technique=DED, design="3 (C02)"),
+ "C03": dict(
+   text="Unbounded deductive proof of parseInto/Parse/UnmarshalControl against the statement: accepted input yields exactly epoch (digits before the first colon), upstream, revision (after the last hyphen); acceptance implies well-formedness (all rejection classes) and every well-formed string is accepted (completeness); a value xor an error; String/StringWithoutEpoch/MarshalControl equal the exact rendering. The render-then-parse round trip itself is checked by the bounded stand-in (all strings up to length 6/7 over a 12-letter alphabet), labelled bounded.",
+   note=TB+"strings.TrimSpace/Index/LastIndex/IndexFunc, strconv.ParseInt, unicode.IsSpace/IsDigit, fmt.Sprintf(%d,%s) contracts are assumed (stdlib/strings.spec). Round trip: bounded only.",
+   technique=DED+"; bounded exhaustive stand-in for the round-trip composition", design="3 (C03)"),
+ "C04": dict(
+   text="Deductive proof, for all inputs, of every function of the dependency parser (17 functions, 16 loops): cursor discipline, no panic, termination, frames, and the rejection facts of the statement as postconditions (success only in front of ',', '|' or the end - so two names without separator are rejected; a version clause only closed by ')', an arch list by ']', a profile group by '>', a substvar by '}' followed by a separator; only the five operators; Parse returns a value xor an error). That parsing a rendered AST gives back the AST is checked by the bounded stand-in (14.6 M renderings and corruptions), labelled bounded.",
+   note=TB+"The positive half (parse(render(AST)) = AST) is bounded, not proved.",
+   technique=DED+"; bounded exhaustive stand-in for the grammar composition", design="3 (C04)"),
+ "C06": dict(
+   text="Unbounded deductive proof: Arch.IsWildcard/Is (recursive, with variant) equal the matching relation written from the statement for all architectures denoted by Debian names (symmetry proved as a lemma); ArchSet.Matches equals 'some entry matches != negated, empty admits all'; GetPossibilities returns, per relation and in order, the first non-substvar alternative whose list admits the architecture (count and position functions over the heap); GetAllPossibilities/GetSubstvars; SatisfiedBy equals the five-operator table over the verified Compare and the verified Parse, false for unparsable numbers and unknown operators.",
+   note=TB+"Strings are compared only for equality here, so the uninterpreted string sort is exact.",
+   technique=DED, design="3 (C06)"),
+ "C18": dict(
+   text="Deductive proof for the version and dependency/architecture parsers (45 functions so far): every BOUNDS/NIL/OVERFLOW/DIV0 obligation (no panic), a decreases clause on every loop and recursion (no hang), value-xor-error postconditions, and checked modifies frames (no write outside arguments and fresh objects, no global writes: calls on disjoint inputs commute). The control-paragraph, typed-document and changelog parsers and the dynamic race detector are covered by the bounded stand-in (all byte strings up to length 4 per entry point, 233 k mutated seed documents, 64-way concurrent parsing, go run -race in the thorough tier), labelled bounded.",
+   note=TB+"Reflection-based decoders and scheduling are outside the verifier; they are only exercised by the bounded harness.",
+   technique=DED+"; bounded exhaustive stand-in for the remaining entry points", design="3 (C18)"),
 }
+BOUNDED = {
+ "C05": "renders/re-parses every token sequence up to length 5/6 over a 16-token alphabet and every architecture name of up to 4 components; fixpoint in one step and (abi, os, cpu) round trip",
+ "C07": "3.7 M deb822 documents from the model (comments, blank runs, CRLF, final newline) against an independent oracle; representation invariant on all byte strings up to length 6/7 over 8 bytes; Next/All/Unmarshal agreement",
+ "C08": "936 k paragraphs / documents through three write-read cycles and the encoder; no blank line inside a paragraph, identity up to one trailing newline, no growth",
+ "C09": "22 probe struct types x value cross products, embedded raw paragraph with unknown fields in every slot; Unmarshal(Marshal(x)) == x, omission/required rules, no panic",
+ "C10": "37 k documents of the six typed kinds rendered from field models in the Debian layout; typed parsers and accessors against the model",
+ "C11": "28 k clearsigned inputs: 2 keys x 5 keyring compositions x every single-byte substitution/deletion/insertion/truncation and splices of foreign text; success only with a valid keyring signature over exactly the parsed text",
+ "C12": "2 M (content, chunking, algorithm list) cases against crypto/* and all recorded-hash variants through every verifier entry point",
+ "C13": "329 k ar archives from the member-list model; every field, data re-readable after iteration, exactly io.EOF at the end",
+ "C15": "16.8 M corrupted archives / .debs (every header column x 10 hostile values, every truncation, substitutions, duplicated members, all 3-byte tails): step bound, no panic/hang, returned members consistent, deterministic",
+ "C16": "7 k signed-package cases: roles x keyrings x byte corruption of every signed member x decoy members; payload still readable after verification",
+ "C17": "2.5 M changelog renderings and every truncation point of 14.7 k of them; all entries or an error, never a silently shortened list",
+ "C19": "85 k build-dependency graphs rendered as .dsc text (alternatives, arch restrictions, substvars, three fields, folded Binary lists); permutation, edges respected, error iff cycle, deterministic",
+ "C20": "320 real-file-system scenarios: Copy/Move/Remove x .dsc/.changes x injected failure at every file x hostile names, plus a watcher on the order of appearance",
+}
+for pid, what in BOUNDED.items():
+    claimed[pid] = dict(category="exploration",
+      text="Bounded stand-in on the real code (never counted as proved): " + what + ". The contract-based proof of this property's functions is not built yet; until then the claim is bounded exploration only.",
+      note="Only the stated finite domain is covered; the harness oracle is written from the property statement and is trusted.",
+      technique="bounded exhaustive enumeration of a stated domain on the real code against an independent oracle (stand-in; the deductive obligations for this property are still to be built)",
+      design="2.6, 3")
 na = {
  "C14": "positive claim is carried by five third-party decompressors, archive/tar and reflection; no contract within reach can express it (DESIGN.md section 4). Its rejection/determinism clauses are function-local and are checked under C15.",
 }
-pending_reason = "check not built yet in this session (build order: DESIGN.md section 5); not claimed until its obligations discharge"
+pending_reason = "check not built yet (build order: DESIGN.md section 5); not claimed until its obligations discharge"
 allp = ["C%02d" % i for i in range(1, 21)]
 checks = []
 for pid in allp:
